@@ -234,4 +234,34 @@ pub mod proofs {
         assert!(kernel::bad_closes() == 0 && kernel::bad_unmaps() == 0, "no_double_or_foreign_release");
         assert!(kernel::fds_open_preexisting() == 1, "callers_descriptor_untouched");
     }
+
+    /// stand-in for rusl::unistd::stat_fd, which passes the constant UnixStr::EMPTY (a const fat
+    /// pointer Kani cannot evaluate): same system call, same decoding, arbitrary small file size
+    pub fn stub_stat_fd(fd: rusl::platform::Fd) -> rusl::Result<rusl::platform::Stat> {
+        let ret = unsafe { sc::syscall4(sc::nr::NEWFSTATAT, fd.value() as usize, 0, 0, 0) };
+        if kernel::is_err(ret) {
+            return Err(rusl::Error { msg: "stat", code: Some(rusl::error::Errno::new((0isize - ret as isize) as i32)) });
+        }
+        let mut st: rusl::platform::Stat = unsafe { core::mem::zeroed() };
+        let sz: i64 = kani::any();
+        kani::assume(sz >= 0 && sz <= 3);
+        st.st_size = sz;
+        Ok(st)
+    }
+
+    /// File::copy: source metadata, destination open, copy_file_range loop — each may fail
+    #[kani::proof]
+    #[kani::unwind(10)]
+    #[kani::stub(rusl::unistd::stat_fd, stub_stat_fd)]
+    pub fn c12_file_copy() {
+        let mut b = [0u8; 3];
+        let p = any_path(&mut b);
+        begin();
+        let src: File = unsafe { File::from_raw_fd(rusl::platform::Fd::try_new(PRE_FD as i32).unwrap()) };
+        let r = src.copy(p);
+        core::mem::forget(src);
+        kani::cover!(r.is_ok(), "copy succeeds");
+        kani::cover!(r.is_err() && kernel::trace_len() >= 3, "copy fails after the destination was opened");
+        end(r, 1);
+    }
 }
